@@ -230,6 +230,9 @@ C01_OK(cfg, in, o) ==
       /\ (~RootGenuine(in) => \A j \in DOMAIN in.kids : /\ in.kids[j].place # "nested"
                                                          /\ in.kids[j].place = "direct" => OwnSigned(in.kids[j]))
       /\ Len(o.assertions) >= 1
+      \* nothing that no signature covers comes back inside an assertion reported as individually validated (the sender may
+      \* add children to a genuine ds:Signature element: the enveloped-signature transform removes the element before digesting)
+      /\ ~o.marked_flagged
 
 \* the assertion-info summary describes the first returned assertion
 Summary_OK(o) ==
